@@ -149,6 +149,11 @@ func initDenied(path string) bool {
 	if denyInit[path] {
 		return true
 	}
+	if strings.HasPrefix(path, "github.com/cockroachdb/") || strings.HasPrefix(path, "github.com/libp2p/") ||
+		strings.HasPrefix(path, "github.com/ipfs/") || strings.HasPrefix(path, "github.com/multiformats/") ||
+		strings.HasPrefix(path, "github.com/tetratelabs/") || strings.HasPrefix(path, "google.golang.org/") {
+		return true
+	}
 	if strings.HasPrefix(path, "internal/") || strings.HasPrefix(path, "runtime/") ||
 		strings.Contains(path, "/internal/cpu") || strings.HasPrefix(path, "vendor/") {
 		return true
@@ -169,6 +174,22 @@ func (i *interpreter) initPackage(pkg *ssa.Package) {
 	}
 	path := pkg.Pkg.Path()
 	if initDenied(path) {
+		// Sentinel errors of packages whose initialiser is not run get a unique
+		// synthetic value so that identity comparisons (errors.Is) keep working.
+		if es := i.prog.ImportedPackage("errors"); es != nil {
+			est := types.NewPointer(es.Type("errorString").Type())
+			for name, m := range pkg.Members {
+				g, ok := m.(*ssa.Global)
+				if !ok || !strings.HasPrefix(name, "Err") {
+					continue
+				}
+				if types.Identical(deref(g.Type()), errorIface) {
+					p := new(value)
+					*p = structure{path + "." + name}
+					*i.globals[g] = iface{t: est, v: p}
+				}
+			}
+		}
 		return
 	}
 	if i.sh.verbose {
@@ -178,6 +199,14 @@ func (i *interpreter) initPackage(pkg *ssa.Package) {
 	saved := i.ps
 	i.ps = nil
 	defer func() { i.ps = saved }()
+	defer func() {
+		if p := recover(); p != nil {
+			if tp, ok := p.(targetPanic); ok {
+				panic(engineError{"panic while initialising package " + path + ": " + describePanic(tp)})
+			}
+			panic(p)
+		}
+	}()
 	if f := pkg.Func("init"); f != nil {
 		call(i, nil, token.NoPos, f, nil)
 	}
@@ -689,9 +718,15 @@ func runFrame(fr *frame) {
 			n := runtime.Stack(buf, false)
 			panic(engineError{fmt.Sprintf("%v in %s\n%s", p, fr.fn, buf[:n])})
 		default:
-			buf := make([]byte, 1<<14)
+			buf := make([]byte, 1<<12)
 			n := runtime.Stack(buf, false)
-			panic(engineError{fmt.Sprintf("%v in %s\n%s", p, fr.fn, buf[:n])})
+			var chain []string
+			for f := fr; f != nil && len(chain) < 25; f = f.caller {
+				if f.fn != nil {
+					chain = append(chain, f.fn.String())
+				}
+			}
+			panic(engineError{fmt.Sprintf("%v in %s\ninterpreted stack: %s\n%s", p, fr.fn, strings.Join(chain, " <- "), buf[:n])})
 		}
 		fr.panicking = true
 		fr.panic = p
